@@ -409,13 +409,14 @@ type c19Exp struct {
 	KillAt   int    `json:"kill_at,omitempty"`
 	KillAt2  int    `json:"kill_at2,omitempty"`
 	Child    string `json:"child,omitempty"`
+	Signal   string `json:"signal,omitempty"` // kill-child: "" = KILL, else TERM | INT | HUP sent to the script only
 	Contend  int    `json:"contenders,omitempty"`
 	Bad      bool   `json:"bad_commit,omitempty"` // commit-while-compiling: the revision pushed during the compile does not compile
 	template *sbx
 }
 
 func (e *c19Exp) id() string {
-	return fmt.Sprintf("%s/%s/%d/%d/%s/%d/%v", e.Hist, e.Kind, e.KillAt, e.KillAt2, e.Child, e.Contend, e.Bad)
+	return fmt.Sprintf("%s/%s/%d/%d/%s%s/%d/%v", e.Hist, e.Kind, e.KillAt, e.KillAt2, e.Child, e.Signal, e.Contend, e.Bad)
 }
 
 type c19Outcome struct {
@@ -596,6 +597,35 @@ func runC19Exp(env *run.Env, e *c19Exp) c19Outcome {
 			out.Key = ""
 			out.What = "child-not-reached"
 			return out
+		}
+		if e.Signal != "" {
+			// A signal the script could catch (plain kill, Ctrl-C, hang-up
+			// of the terminal), sent to the script only. Whether the
+			// script dies at once or goes on when its child returns: the
+			// database must stay as the statement says.
+			sig := map[string]syscall.Signal{"TERM": syscall.SIGTERM, "INT": syscall.SIGINT, "HUP": syscall.SIGHUP}[e.Signal]
+			syscall.Kill(cmd.Process.Pid, sig)
+			died := false
+			select {
+			case <-done:
+				died = true
+			case <-time.After(1500 * time.Millisecond):
+			}
+			tl.add(s.snapshot(), "after-signal-"+e.Signal)
+			os.Remove(park)
+			if !died {
+				select {
+				case <-done:
+				case <-time.After(120 * time.Second):
+					syscall.Kill(-cmd.Process.Pid, syscall.SIGKILL)
+					<-done
+					return fail("harness", "script did not end after the signalled run")
+				}
+			}
+			waitLockFree(filepath.Join(s.dir, "base/policies/LOCK"), 30*time.Second)
+			tl.add(s.snapshot(), "signalled-run-ended")
+			tl.checkNewDirs("signalled-run-ended")
+			break
 		}
 		// Kill only the script; the parked child is orphaned and keeps fd 9.
 		syscall.Kill(cmd.Process.Pid, syscall.SIGKILL)
@@ -804,7 +834,7 @@ func checkC19(tier, replay string) int {
 	rep := ev.New(env, "fault_enumeration")
 	rep.Rule = "Commit histories {fresh, p1+good, p1+bad, p1+good+bad, p1+bad+bad, p1+POLICY-file edit, lost link, up to date, p9+good (number of digits changes), failed-then-good} x " +
 		"kill point = every simple command of newpolicy.sh (DEBUG trap step k of the reference run of that history), " +
-		"a sample of second kills, SIGKILL of the script while parked inside `git clone` / the compiler (orphan keeps the lock), " +
+		"a sample of second kills, SIGKILL - and SIGTERM / SIGINT / SIGHUP, which a script may catch - of the script while parked inside `git clone` / the compiler (orphan keeps the lock), " +
 		"and 1..3 contenders started while the holder is parked in the compiler. After each event the monitor checks: current absent or complete+compiling, " +
 		"numbers increasing, compiler runs not interleaved; then one undisturbed run must make the newest compiling revision current. " +
 		"Non-trivial = the fault was delivered (script killed at the step / child parked and parent killed / contenders ran while holder parked). " +
@@ -882,6 +912,9 @@ func checkC19(tier, replay string) int {
 		}
 		for _, child := range []string{"clone", "netspoc"} {
 			exps = append(exps, &c19Exp{Hist: t.h.Name, Kind: "kill-child", Child: child, template: t.s})
+			for _, sig := range []string{"TERM", "INT", "HUP"} {
+				exps = append(exps, &c19Exp{Hist: t.h.Name, Kind: "kill-child", Child: child, Signal: sig, template: t.s})
+			}
 		}
 		for _, bad := range []bool{false, true} {
 			exps = append(exps, &c19Exp{Hist: t.h.Name, Kind: "commit-while-compiling", Bad: bad, template: t.s})
